@@ -135,10 +135,11 @@ def stringvalue(string):
     return string.replace('\\'+string[0], string[0])[1:-1]
 
 
-# characters which may not appear in an unquoted url(): these and (besides
-# the backslash) all characters the tokenizer's {url} macro does not accept,
-# i.e. C0 control characters and DEL
-_match_forbidden_in_uri = re.compile(r'''.*?[\(\)\s\;,'"\x00-\x1f\x7f]''', re.U).match
+# characters which may not appear in an unquoted url(): all characters the
+# tokenizer's {url} macro does not accept (these, C0 control characters and
+# DEL) and the backslash, which would start an escape (``string`` knows how
+# to write it)
+_match_forbidden_in_uri = re.compile(r'''.*?[\(\)\s\;,'"\\\x00-\x1f\x7f]''', re.U).match
 
 
 def uri(value):
